@@ -6,7 +6,7 @@ AREA = "c03"
 LEAN_PROPS = "Litep2pVerif.Props.C03"
 THEOREMS = ["msg_roundtrip", "varint_roundtrip", "framing_transparent", "framing_writer_exact",
             "negotiate_terminates", "negotiate_confluent", "negotiate_agree", "into_inner_safe",
-            "webrtc_agree_partial", "fallback_reported_as_main"]
+            "webrtc_safe", "webrtc_agree", "fallback_reported_as_main"]
 CONSTS = ["MSS_MAX_PROTOCOLS", "MSS_MAX_LEN_BYTES", "MSS_MAX_FRAME_SIZE_MINUS"]
 _P = "src/multistream_select/protocol.rs"
 _L = "src/multistream_select/length_delimited.rs"
@@ -289,7 +289,8 @@ def wname(rng):
     if r < 0.85:
         return rng.choice(BASE[:11])
     if r < 0.9:
-        return rng.choice(LONG + TOO_LONG + [b"/" + b"q" * (MAX_FRAME - 25), b"/" + b"q" * (MAX_FRAME - 24), b"/" + b"q" * (MAX_FRAME - 5)])
+        return rng.choice(LONG + TOO_LONG + [b"/" + b"q" * (MAX_FRAME - 25), b"/" + b"q" * (MAX_FRAME - 24), b"/" + b"q" * (MAX_FRAME - 5),
+                           b"/" + b"q" * (MAX_FRAME - 23), b"/" + b"q" * (MAX_FRAME - 4)])
     if r < 0.95:
         return rng.choice([b"noslash", b"/a\nb", MULTISTREAM])
     return rng.choice(BASE)
@@ -342,8 +343,55 @@ def ops_webrtc(rng):
     return ops
 
 
+def utf8_name(rng):
+    r = rng.random()
+    if r < 0.8:
+        return rng.choice(BASE[:11])
+    if r < 0.9:
+        return rng.choice(BASE)
+    return b"/" + bytes(rng.choice(b"abc/12.") for _ in range(rng.randrange(0, 4)))
+
+
+def show_installed(installed):
+    return ",".join(";".join(hx(n) for n in [m] + fbs) for m, fbs in installed) if installed else "-"
+
+
+def ops_report(rng):
+    """Install 0-4 protocols with 0-3 fallback names each and report substreams negotiated under main names,
+    fallback names, names of other protocols and unknown names."""
+    installed = []
+    for _ in range(rng.randrange(0, 5)):
+        installed.append((utf8_name(rng), [utf8_name(rng) for _ in range(rng.randrange(0, 4))]))
+    r = rng.random()
+    if r < 0.85:
+        # the common configuration: distinct mains, a fallback name belongs to one protocol
+        seen, clean = set(), []
+        for m, fbs in installed:
+            if m in seen:
+                continue
+            seen.add(m)
+            clean.append((m, fbs))
+        taken = set() if rng.random() < 0.2 else {m for m, _ in clean}    # sometimes a fallback = another main
+        installed = []
+        for m, fbs in clean:
+            keep = []
+            for f in fbs:
+                if f not in taken:
+                    keep.append(f)
+            taken |= set(keep)
+            installed.append((m, keep))
+    ops = []
+    names = [m for m, _ in installed] + [f for _, fbs in installed for f in fbs]
+    for _ in range(rng.randrange(1, 5)):
+        neg = rng.choice(names) if names and rng.random() < 0.8 else utf8_name(rng)
+        ops.append(f"report protos={show_installed(installed)} neg={hx(neg)}")
+    return ops
+
+
 def gen_case(rng):
     k = rng.random()
+    if k < 0.06:
+        return ops_report(rng)
     if k < 0.45:
         return [op_negotiate(rng) for _ in range(rng.randrange(1, 3))]
     if k < 0.65:
@@ -364,6 +412,7 @@ def corpus():
         [f"negotiate ver=v1 dialer={hl([LONG[0]])} listener={hl([LONG[0]])} dpay=01 lpay=02 dr=1,1,1,0,7 lw=3,0,1000"],
         [f"negotiate ver=v1 dialer=- listener={hl([a])}"],
         [f"wpair main={hx(a)} fb={hl([b, c])} sup={hl([c])} split=5"],
+        [f"report protos={show_installed([(a, [b, c]), (ab, [])])} neg={hx(n)}" for n in (c, a, ab, b"/zz")],
     ]
 
 
@@ -480,10 +529,36 @@ def oracle(case, out):
                     v("disagree", f"reported a protocol that was never offered: {r.get('r')}", i)
                 elif frame(name + b"\n") not in unhx(a.get("peer", "-")):
                     v("disagree", f"reported {r.get('r')} although the peer never sent that name", i)
+        elif t[0] == "report":
+            if o == "bad-op":
+                continue
+            pr = a.get("protos", "-")
+            installed = [] if pr in ("-", "") else [[unhx(x) for x in e.split(";")] for e in pr.split(",")]
+            neg = unhx(a.get("neg", "-"))
+            mains = [e[0] for e in installed]
+            owners = [e[0] for e in installed if neg in e[1:]]
+            r = kvs(o.split())
+            if len(set(mains)) != len(mains) or len(set(owners)) > 1:
+                continue            # ambiguous configuration: outside the property
+            if owners:
+                want = f"ok to={mains.index(owners[0])} main={hx(owners[0])} fb={hx(neg)}"
+                if not o.startswith(want + " "):
+                    v("fallback-mapping", f"{neg!r} is a fallback name of {owners[0]!r}: want '{want}', got '{o}'", i)
+            elif neg in mains:
+                want = f"ok to={mains.index(neg)} main={hx(neg)} fb=none"
+                if not o.startswith(want + " "):
+                    v("fallback-mapping", f"{neg!r} is a main name: want '{want}', got '{o}'", i)
+            elif not o.startswith("err:not-supported"):
+                v("fallback-mapping", f"{neg!r} is not installed but the report says '{o}'", i)
+            offered = len(set(mains) | {f for e in installed for f in e[1:]})
+            if r.get("n") != str(offered):
+                v("fallback-mapping", f"the connection offers {r.get('n')} names, installed are {offered}", i)
         elif t[0] == "wpair":
             main, fb, sup = unhl(a["main"]), unhl(a.get("fb", "-")), unhl(a.get("sup", "-"))
             names = main + fb
-            if not all(valid_name(n) and len(n) + 24 <= MAX_FRAME for n in names):
+            # the hypotheses of webrtc_agree: main ≤ MAX − 23 bytes (header frame in front), fallbacks ≤ MAX − 3
+            if not (all(valid_name(n) for n in names) and len(main) == 1 and len(main[0]) + 23 <= MAX_FRAME
+                    and all(len(n) + 3 <= MAX_FRAME for n in fb)):
                 continue
             want = next((p for p in names if p in sup), None)
             if want is not None:
@@ -538,7 +613,7 @@ def stats(case, out, acc):
 
 def nontrivial(case, out):
     return any(" l=ok:" in o or "r=ok:" in o or o.startswith("proto") or "succeeded" in o or o.startswith("accepted")
-               for o in out)
+               or o.startswith("ok to=") for o in out)
 
 
 def matches_known(k, v):
